@@ -97,3 +97,5 @@ def run(chk):
     if chk.tier == "thorough":
         from .. import witnesses
         witnesses.run(chk, "C01", ['W4'])
+    from ..history import history_rule
+    history_rule(chk, "C01.H", F.load("dbg"))
